@@ -28,14 +28,18 @@ Operands == {VInt(IntOf(s)) : s \in IntLits}
 
 VARIABLES op, a, b
 vars == <<op, a, b>>
-Init == op \in ArithOps \cup CmpOps \cup BoolOps /\ a \in Operands /\ b \in Operands
+UnaryOps == {"neg", "not"}
+\* for a unary operator the second operand is ignored (fixed to the first operand)
+Init == \/ op \in ArithOps \cup CmpOps \cup BoolOps /\ a \in Operands /\ b \in Operands
+        \/ op \in UnaryOps /\ a \in Operands /\ b = a
 Next == UNCHANGED vars
 Spec == Init /\ [][Next]_vars
 
 \* design-level sanity of the reference arithmetic itself
-DivModLaw == (op \in {"//"} /\ Val("//", a, b).t = "int" /\ Val("%", a, b).t = "int")
+DivModLaw == (op \in {"//"} /\ IsIntLike(a) /\ IsIntLike(b) /\ Val("//", a, b).t = "int" /\ Val("%", a, b).t = "int")
                => Cmp(Add(Mul(Val("//", a, b).v, AsInt(b)), Val("%", a, b).v), AsInt(a)) = 0
 
+Value == IF op \in UnaryOps THEN UVal(op, a) ELSE Val(op, a, b)
 Emit == PrintT(<<"K", ToJson([op |-> op, l |-> Lit(a), r |-> Lit(b), lt |-> a.t, rt |-> b.t,
-                              val |-> Show(Val(op, a, b)), vt |-> Val(op, a, b).t])>>)
+                              val |-> Show(Value), vt |-> Value.t])>>)
 =============================================================================
